@@ -1856,6 +1856,12 @@ func helperPerforms(h *ssa.Function, direct0 func(ssa.Instruction) bool, mode st
 	rets := Returns(h)
 	n := 0
 	for _, ret := range rets {
+		if mode == "errnil" {
+			// returns that report an error need not perform
+			if RetErrKind(ret) == "nonnil" {
+				continue
+			}
+		}
 		if mode == "true" {
 			// the verdict is the last result (a bool: `ok`); returns that answer false need not perform
 			if len(ret.Results) < 1 {
@@ -1937,6 +1943,9 @@ func performsVia(in ssa.Instruction, direct func(ssa.Instruction) bool, at *ssa.
 		return false
 	}
 	if helperPerforms(h, direct, "all") {
+		return true
+	}
+	if at != nil && h.Signature.Results().Len() >= 1 && ErrOK(at, c) && helperPerforms(h, direct, "errnil") {
 		return true
 	}
 	if at != nil && h.Signature.Results().Len() >= 1 {
